@@ -48,7 +48,10 @@ def bases(tmp):
     arfff = os.path.join(tmp, "d.arff"); open(arfff, "w").write(arff)
     def lam():
         return Environments.from_lambda(45, lambda i: [i % 5, i % 3], lambda i, c: [0, 1, 2], lambda i, c, a: float((a + i) % 3 == 0))
+    def lam_sparse():      # sparse contexts whose later interactions bring feature names not seen before
+        return Environments.from_lambda(45, lambda i: {"f%d" % (i % 7): 1, "g%d" % (i // 4): i % 3 + 1}, lambda i, c: [0, 1, 2], lambda i, c, a: float((a + i) % 3 == 0))
     return {
+        "lambda-sparse": (lam_sparse, "sim-sparse"),
         "linear":    (lambda: Environments.from_linear_synthetic(60, n_actions=3, n_context_features=3, n_action_features=2, seed=5), "sim-dense"),
         "neighbors": (lambda: Environments.from_neighbors_synthetic(50, n_actions=3, n_context_features=2, n_action_features=2, n_neighborhoods=5, seed=2), "sim-dense"),
         "kernel":    (lambda: Environments.from_kernel_synthetic(40, n_actions=3, n_context_features=2, n_action_features=2, n_exemplars=4, seed=3), "sim-dense"),
@@ -81,7 +84,8 @@ def pipelines(tmp, rng, count):
     names = sorted(STEPS)
     fixed = [("linear", ["cache"]), ("linear", ["chunk", "shuffle7"]), ("logged", ["shuffle7"]), ("logged", ["shuffle7", "cache"]), ("logged-fx", ["shuffle0", "take30"]),
              ("sup-seq", []), ("sup-seq", ["cache"]), ("sup-csv", ["shuffle7"]), ("sup-arff", ["scale"]), ("linear", ["dense-l"]), ("linear", ["sparse", "dense-l", "cache"]),
-             ("lambda", ["batch3", "cache"]), ("neighbors", ["materialize"]), ("kernel", ["reservoir", "chunk"]), ("bandit", ["cycle5", "cache"]), ("linear", ["logged", "shuffle7", "chunk"])]
+             ("lambda", ["batch3", "cache"]), ("neighbors", ["materialize"]), ("kernel", ["reservoir", "chunk"]), ("bandit", ["cycle5", "cache"]), ("linear", ["logged", "shuffle7", "chunk"]),
+             ("lambda-sparse", ["dense-l"]), ("lambda-sparse", ["dense-l", "take30"]), ("lambda-sparse", ["shuffle7", "dense-h"]), ("lambda-sparse", ["scale10", "cache"])]
     chains = list(fixed)
     while len(chains) < count:
         b = rng.choice(sorted(B)); k = rng.randrange(0, 4)
@@ -131,7 +135,8 @@ def run(ctx):
             skipped += 1; continue            # not a type-compatible chain: a fresh object cannot even be read once
         if again != ref:
             skipped += 1; continue            # not deterministic by construction (time-seeded component): outside the property
-        for h in (hists if per >= len(hists) else rng.sample(hists, per)):
+        nh = per if pipes.index((desc, factory)) >= 20 else min(len(hists), 4 * per)      # the curated pipelines get four times as many histories
+        for h in (hists if nh >= len(hists) else rng.sample(hists, nh)):
             ctx.case(json.dumps([desc, h]))
             bad = replay(factory, h, ref, ref_params)
             if bad:
